@@ -32,20 +32,14 @@ import (
 	"go/ast"
 	"go/parser"
 	"go/token"
-	"os"
 	"path/filepath"
 	"sort"
 
 	"verifharness/lib"
+	"verifharness/svclib"
 )
 
-func repoDir() string {
-	repo := os.Getenv("VERIF_REPO")
-	if repo == "" {
-		repo = "/repo"
-	}
-	return repo
-}
+func repoDir() string { return svclib.RepoDir() }
 
 func isIdent(e ast.Expr, name string) bool {
 	id, ok := e.(*ast.Ident)
